@@ -105,6 +105,7 @@ def c07(ctx):
 @check("C18")
 def c18(ctx):
     nn, rr = (24, 24) if ctx.quick else (72, 72)
+    apalache(ctx, "SamplerApa", "SampleOnArc")      # every integer offset of the specified sampler, symbolically
     tlc(ctx, "MC_Limits", cfg="MC_Sampler", constants={"NN": nn, "RR": rr}, workers=8)
     opwv(ctx, ["record", "samples", ctx.path("samples.trace")])
     viols, done = trace_validate(ctx, "Trace_Limits", ctx.path("samples.trace"))
